@@ -1,7 +1,8 @@
 """C08 plugin.  pregen (tie T1): harness/cmd/c08/extract (go/ast, source text only) regenerates
-lean/GeomV/C08/Gen/GoProj.lean from the CURRENT proj/{common,datum,merc,lcc,aea,eqdc,tmerc,utm,krovak}.go; the `rfl` lemmas of
-lean/GeomV/C08/{Ties,TiesCommon,TiesReal,TiesGuards}.lean then re-check model = source for every arithmetic right-hand side,
-guard comparison (operands, operator, threshold) and literal loop bound."""
+lean/GeomV/C08/Gen/GoProj.lean from the CURRENT proj/{common,datum,merc,lcc,aea,eqdc,tmerc,utm,krovak}.go and Gen/GoRoute.lean from
+proj/transform.go; the `rfl` lemmas of lean/GeomV/C08/{Ties,TiesCommon,TiesReal,TiesGuards,TiesRoute}.lean then re-check model = source
+for every arithmetic right-hand side, guard comparison (operands, operator, threshold), literal loop bound, integer iteration cap
+(tmerc max_iter, krovak iter < 15, Hannover maxiter) and the pipeline's route decision, record guards and compound assignments."""
 import os, subprocess, sys
 sys.path.insert(0, os.path.join(os.path.dirname(os.path.dirname(os.path.abspath(__file__))), "lib"))
 import vcheck
@@ -78,7 +79,7 @@ def post(check, pairs, stats):
 
 CFG = {
     "id": "C08",
-    "lean_modules": ["GeomV.C08.Proofs", "GeomV.C08.ProofsConic", "GeomV.C08.ProofsTmerc", "GeomV.C08.ProofsGeodetic", "GeomV.C08.ProofsKrovak", "GeomV.C08.ProofsUnique", "GeomV.C08.ProofsConverge", "GeomV.C08.ProofsHelmert", "GeomV.C08.ProofsPipeline", "GeomV.C08.Ties", "GeomV.C08.TiesCommon", "GeomV.C08.TiesReal", "GeomV.C08.TiesGuards"],
+    "lean_modules": ["GeomV.C08.Proofs", "GeomV.C08.ProofsConic", "GeomV.C08.ProofsTmerc", "GeomV.C08.ProofsGeodetic", "GeomV.C08.ProofsKrovak", "GeomV.C08.ProofsUnique", "GeomV.C08.ProofsConverge", "GeomV.C08.ProofsHelmert", "GeomV.C08.ProofsPipeline", "GeomV.C08.Ties", "GeomV.C08.TiesCommon", "GeomV.C08.TiesReal", "GeomV.C08.TiesGuards", "GeomV.C08.TiesRoute"],
     "pregen": pregen,
     "post": post,
     "exe": "geomv_c08",
@@ -125,7 +126,9 @@ CFG = {
                                   "guard_sign", "guard_adjustLon", "guard_adjustLat", "guard_asinz", "guard_phi2zLoop", "guard_phi2z_cap",
                                   "guard_imlfnLoop", "guard_imlfn_cap", "guard_qsfnz", "guard_fwdMerc", "guard_fwdLcc", "guard_invLcc",
                                   "guard_aeaPhi1zLoop", "guard_aeaPhi1z", "guard_invAea", "guard_invEqdc", "guard_tmercPhiLoop",
-                                  "guard_krovakLatLoop", "guard_geodeticToGeocentric"]],
+                                  "guard_krovakLatLoop", "guard_geodeticToGeocentric",
+                                  # part 5 (TiesRoute): transform.go - checkNotWGS, the closure's route condition, transform3's guards and assignments
+                                  "tie_checkNotWGS", "tie_transform", "tie_transform3"]],
     "trusted_base": [
         "Lean 4.33.0 kernel; axioms of every theorem printed by #print axioms must be within {propext, Classical.choice, Quot.sound}; Mathlib v4.33 modules imported by RealInst/Lemmas/Proofs are checked by the same kernel",
         "the generic model lean/GeomV/C08/{ProjCommon,ProjMerc,ProjLcc,ProjAea,ProjEqdc,ProjTmerc,ProjKrovak,ProjDatum,ProjPipeline}.lean is ONE definition per Go function; its Float instance is tied to /repo/proj by the correspondence run on every check (1e-9 relative on projected metres, 1e-12 rad on angles), its Real instance is what the theorems are about",
